@@ -20,7 +20,7 @@ from ..progen import mkfunc, call
 
 def base_program():
     return {
-        "funcs": [mkfunc("f", calls=[call("g"), call("h"), call("k"), call("abs")], reads=["G", "GL", "cfg.X", "cfg.Z"], rich=False),
+        "funcs": [mkfunc("f", calls=[call("g"), call("h"), call("k"), call("abs")], reads=["G", "GL", "cfg.X", "cfg.Z", "Alt.Z", "cfg.inner.W"], rich=False),
                   mkfunc("g", reads=["G", "GV"], rich=False),
                   mkfunc("h", kind="plain", reads=["GL", "HV"], rich=False),
                   # reference cycles: r refers to itself, p and q to each other (only versions are asked, nothing is called)
@@ -32,7 +32,8 @@ def base_program():
                   dict(mkfunc("n", calls=[call("h")], reads=["GV"], rich=False), no_auto=True)],
         "stmts": {"@keep": "g2_orig = g2", "@bind_t": "g2 = g2_orig"},
         "vars": {"G": 5, "GL": [1, 2], "HV": 1, "GV": 1},
-        "classes": {"C1": {"X": 10}, "C2": {"X": 20}},
+        # Alt.Z is missing like cfg.Z (same attribute name, another owner); cfg.inner.W is a missing attribute two levels down
+        "classes": {"In1": {"V": 1}, "C1": {"X": 10, "inner": {"__ref__": "In1"}}, "C2": {"X": 20, "inner": {"__ref__": "In1"}}, "Alt": {"X": 30}},
         "bindings": {"cfg": "C1"},
         "order": ["f", "g", "h", "k", "r", "p", "q", "abs", "g2", "g3", "@keep", "@bind_t", "w", "n"],
         "late": ["k"],
@@ -41,7 +42,7 @@ def base_program():
 
 QUERIED = ("f", "g", "r", "p", "q", "w", "n")
 EVENTS = ["redef_f", "redef_g", "redef_h", "redef_r", "redef_q", "redef_h_default", "redef_h_kwdefault", "rebind_G", "rebind_HV", "rebind_GV", "mutate_GL", "def_k_helper", "def_k_var", "def_abs_helper", "rebind_t", "toggle_g_kind",
-          "rebind_cfg", "def_attr_Z", "clone_f", "clone_n", "wrap_f", "query_f", "query_g"]
+          "rebind_cfg", "def_attr_Z", "def_attr_AltZ", "def_attr_W", "clone_f", "clone_n", "wrap_f", "query_f", "query_g"]
 
 
 def apply_to_ast(P, ev):
@@ -77,6 +78,10 @@ def apply_to_ast(P, ev):
         Q["stmts"]["@bind_t"] = "g2 = g3" if Q["stmts"]["@bind_t"] == "g2 = g2_orig" else "g2 = g2_orig"
     elif ev == "def_attr_Z":
         Q["classes"][Q["bindings"]["cfg"]]["Z"] = 5
+    elif ev == "def_attr_AltZ":
+        Q["classes"]["Alt"]["Z"] = 6
+    elif ev == "def_attr_W":
+        Q["classes"]["In1"]["W"] = 7
     else:
         return None
     return Q
@@ -94,6 +99,10 @@ def enabled(P, ev):
         return fm["g"]["kind"] == "memento"
     if ev == "def_attr_Z":
         return "Z" not in P["classes"][P["bindings"]["cfg"]]
+    if ev == "def_attr_AltZ":
+        return "Z" not in P["classes"]["Alt"]
+    if ev == "def_attr_W":
+        return "W" not in P["classes"]["In1"]
     return True
 
 
@@ -108,6 +117,12 @@ def apply_live(P, Q, ev, mods, root, objs):
         return None
     if ev == "def_attr_Z":
         setattr(getattr(a, Q["bindings"]["cfg"]), "Z", 5)  # a new attribute on the live class object
+        return None
+    if ev == "def_attr_AltZ":
+        a.Alt.Z = 6
+        return None
+    if ev == "def_attr_W":
+        a.In1.W = 7
         return None
     if ev == "rebind_t":
         setattr(a, "g2", getattr(a, Q["stmts"]["@bind_t"].split("= ")[1]))
